@@ -99,6 +99,16 @@ def clauses (prop : String) (inst : Instance) (es : List Ev) (outs : List EvOut)
     if closed || !leftover.isEmpty then [("no_panic", noPanic)]
     else [("no_panic", noPanic), ("dispatch_exact_in_order", cmdsMatch expectCmds allCmds)]
   | "C03" =>
+    if closed && !wellFormedPrefix then
+      -- the stream contains a header the daemon rejects: which registration is "current" when the client disappears is then
+      -- what the proved model says (C03_failsafe holds for EVERY byte stream, with the model's arming): the stop must be
+      -- there exactly when that registration carries the failsafe flag
+      let modelFlags := (run inst {} pre).1.core.flags
+      let stopAtClose : Bool := (es.zip outs).all fun (e, o) =>
+        !isClose e || ((es.takeWhile (fun x => x != e)).any isEnder) ||
+          (if isFailsafe modelFlags then o.cmds.getLast? == some "motion~stop" else !(o.cmds.contains "motion~stop"))
+      [("no_panic", noPanic), ("failsafe_follows_the_current_registration_after_a_rejected_header", stopAtClose)]
+    else
     if !closed || !wellFormedPrefix then [("no_panic", noPanic)]
     else
       let armed := isFailsafe flags
